@@ -43,13 +43,20 @@ impl Drop for RepSocket {
 impl Socket for RepSocket {
     fn with_options(options: SocketOptions) -> Self {
         let fair_queue = FairQueue::new(true);
+        let backend = Arc::new(RepSocketBackend {
+            peers: scc::HashMap::new(),
+            fair_queue_inner: fair_queue.inner(),
+            socket_monitor: Mutex::new(None),
+            socket_options: options,
+        });
+        let weak_backend = Arc::downgrade(&backend);
+        fair_queue.on_stream_end(move |peer_id| {
+            if let Some(backend) = weak_backend.upgrade() {
+                backend.peer_disconnected(peer_id);
+            }
+        });
         Self {
-            backend: Arc::new(RepSocketBackend {
-                peers: scc::HashMap::new(),
-                fair_queue_inner: fair_queue.inner(),
-                socket_monitor: Mutex::new(None),
-                socket_options: options,
-            }),
+            backend,
             envelope: None,
             current_request: None,
             fair_queue,
